@@ -177,11 +177,12 @@ def run_chunks(frames, chunks, base, eof_after=True, probes=False):
     if ss.exc is not None and not isinstance(ss.exc, Exception):
         bad.append(("non-exception-escape", "enip_srv_tcp raised %r" % (ss.exc,)))
     if probes and not bad:
-        # the parked older session and a brand-new session must both still work and see the same store
+        # the parked older session, a brand-new session and a new session FROM THE SAME PEER ADDRESS (a client pinned to a
+        # source port reconnecting) must all work and see the same store
         want_a = list(dict(S.store())["a"])
-        for who, sess, handle in (("older", older, None), ("new", None, None)):
+        for who, sess, handle in (("older", older, None), ("new", None, None), ("same-peer", None, None)):
             if sess is None:
-                sess = sim.Session(S, ("127.0.0.1", 10010))
+                sess = sim.Session(S, ("127.0.0.1", 10010) if who == "new" else ADDR)
                 r = sess.feed(W.register(b"ctx-new-"))
             else:
                 r = [older.conn.sent[0]]
